@@ -14,8 +14,15 @@ in the wrong role yields different numbers:
 
 The projected distribution is observed through the guarded hook ("rainbow.proj",
 agilerl.utils.verif_hooks); the element-wise loss by wrapping the bound _dqn_loss (observation only).
-Observation layout: obs = [row, kind, 7, 0]; kind 0/1 = obs/next_obs of the 1-step batch,
-2/3 = obs/next_obs of the n-step batch.
+Observation layout: obs = [row, kind, 7, 0, ...] (reshaped to the observation space's shape); kind 0/1 =
+obs/next_obs of the 1-step batch, 2/3 = obs/next_obs of the n-step batch.
+
+Supports.  The specification works in units of delta_z with an integer vmin.  The real agent is built on the
+affine image  z_j = (vmin + shift + j) * scale  of that support, with rewards  (r + shift (1 - (1-d) gamma^n)) *
+scale  (C51.tla, ShiftCovariant: same b, hence same projection).  If scale and shift are dyadic every float32
+operation is exact and the hook values are compared with equality ("exact" harness); otherwise (realistic
+supports such as [-10, 10] / 51 atoms, delta_z = 0.4) the hook values are rounded to the grid when they are within
+a float32 error bound of a grid point (the projection is continuous in its inputs) and -1 (off grid) otherwise.
 """
 from __future__ import annotations
 
@@ -41,36 +48,90 @@ def _imports():
     return spaces, TensorDict, RainbowDQN, verif_hooks
 
 
-def exact_int(x: float, den: float) -> int:
-    """x*den if that is an integer, else -1 (off-grid marker)."""
+OFF_GRID = -10 ** 9                     # off-grid marker for quantities that may legitimately be -1 (rewards)
+
+
+def grid_int(x: float, den: float, tol: float = 0.0, off: int = -1) -> int:
+    """round(x*den) if x*den is within tol of an integer (tol = 0: exactly an integer), else the off-grid marker."""
     v = float(x) * den
+    if not math.isfinite(v):
+        return off
     iv = round(v)
-    return int(iv) if iv == v and abs(iv) < 2 ** 30 else -1
+    return int(iv) if abs(v - iv) <= tol and abs(iv) < 2 ** 29 else off
+
+
+def exact_int(x: float, den: float) -> int:
+    return grid_int(x, den, 0.0)
+
+
+def is_dyadic(x: float, bits: int = 10) -> bool:
+    return float(x * 2 ** bits).is_integer() and abs(x) < 2 ** 12
+
+
+def top_index_overflows(v_min, v_max, N: int) -> bool:
+    """Float32 emulation of b = (clamp(t_z) - v_min) / delta_z for t_z = v_max: does it exceed N - 1?  (Used only to
+    label supports in reports, never to decide a verdict.)"""
+    delta = (v_max - v_min) / (N - 1)
+    b = (torch.tensor([float(v_max)]).clamp(min=v_min, max=v_max) - v_min) / delta
+    return bool(b.item() > N - 1)
+
+
+def affine_of(v_min, v_max, N: int) -> Tuple[int, float, float]:
+    """(vmin, scale, shift) with v_min = (vmin + shift) * scale, scale = delta_z, 0 <= shift < 1."""
+    scale = (v_max - v_min) / (N - 1)
+    vmin = math.floor(v_min / scale + 1e-9)
+    shift = v_min / scale - vmin
+    if abs(shift) < 1e-9:
+        shift = 0.0
+    return vmin, scale, shift
 
 
 class Harness:
     """One real agent + stub tables."""
 
-    def __init__(self, N: int, vmin: int, B: int, *, scale: float = 1.0, gamma: float = 0.5, n_step: int = 1,
-                 combined: bool = False, seed: int = 0, prior_eps: float = 1e-6):
+    def __init__(self, N: int, vmin: int, B: int, *, scale: float = 1.0, shift: float = 0.0, vrange=None,
+                 gamma: float = 0.5, n_step: int = 1, combined: bool = False, seed: int = 0, prior_eps: float = 1e-6,
+                 A: int = 3, obs_shape: Tuple[int, ...] = (4,), clone: bool = False, bs_ctor: Optional[int] = None):
         spaces, TensorDict, RainbowDQN, hooks = _imports()
         self.TensorDict, self.hooks = TensorDict, hooks
-        self.N, self.vmin, self.B, self.scale = N, vmin, B, scale
+        self.A, self.obs_shape = A, tuple(obs_shape)
         torch.manual_seed(seed)
         np.random.seed(seed % (2 ** 32))
-        v_min = vmin * scale
-        v_max = (vmin + N - 1) * scale
-        if float(v_min).is_integer() and float(v_max).is_integer() and seed % 2 == 0:
-            v_min, v_max = int(v_min), int(v_max)          # the constructor accepts int and float bounds
-        self.agent = RainbowDQN(
-            spaces.Box(-1.0, 1.0e6, (4,), dtype=np.float32), spaces.Discrete(A), batch_size=B, num_atoms=N,
+        if vrange is not None:                               # a support given by its bounds, as a user writes it
+            v_min, v_max = vrange
+            vmin, scale, shift = affine_of(v_min, v_max, N)
+            self.exact = False
+        else:
+            v_min = (vmin + shift) * scale
+            v_max = (vmin + shift + N - 1) * scale
+            self.exact = is_dyadic(scale) and is_dyadic(shift)
+            if float(v_min).is_integer() and float(v_max).is_integer() and seed % 2 == 0:
+                v_min, v_max = int(v_min), int(v_max)          # the constructor accepts int and float bounds
+        self.N, self.vmin, self.B, self.scale, self.shift = N, vmin, B, scale, shift
+        self.v_min, self.v_max = v_min, v_max
+        # float32 error bound (absolute, per unit of source mass) of b and of a projected entry on a non-dyadic support
+        mag = max(abs(v_min), abs(v_max)) / scale + N
+        self.relerr = 0.0 if self.exact else 1e-6 + 5e-7 * mag
+        self.gamma_of: Dict[str, float] = {}
+        ag = RainbowDQN(
+            spaces.Box(-1.0, 1.0e6, self.obs_shape, dtype=np.float32), spaces.Discrete(A),
+            batch_size=(B if bs_ctor is None else bs_ctor), num_atoms=N,
             v_min=v_min, v_max=v_max, gamma=gamma, n_step=n_step, combined_reward=combined, prior_eps=prior_eps,
             lr=1e-3, net_config={"latent_dim": 8, "encoder_config": {"hidden_size": [16]},
                                  "head_config": {"hidden_size": [64]}})
-        ag = self.agent
-        want = torch.tensor([(vmin + j) * scale for j in range(N)], dtype=torch.float32)
-        if not (torch.equal(ag.support.cpu(), want) and float(ag.delta_z) == float(scale)):
-            raise RuntimeError(f"support of the real agent is not the intended grid: {ag.support} delta={ag.delta_z}")
+        if bs_ctor is not None:
+            setattr(ag, "batch_size", B)                    # what a hyper-parameter mutation of batch_size does
+        if clone:
+            ag = ag.clone()                                 # the configuration has to survive clone()
+        self.agent = ag
+        want = torch.tensor([(vmin + shift + j) * scale for j in range(N)], dtype=torch.float32)
+        # the support is the public definition of the grid; delta_z is the code's own derived quantity (not trusted here)
+        if self.exact:
+            good = torch.equal(ag.support.cpu(), want)
+        else:
+            good = torch.allclose(ag.support.cpu(), want, rtol=1e-5, atol=1e-6 * scale)
+        if not good:
+            raise RuntimeError(f"support of the real agent is not the intended grid: {ag.support}")
         self.calls: List[tuple] = []
         self.qvals: Dict[int, torch.Tensor] = {}
         self.tpmf: Dict[int, torch.Tensor] = {}
@@ -96,8 +157,9 @@ class Harness:
 
     # ------------------------------------------------------------------ stubs
     def _lookup(self, table: Dict[int, torch.Tensor], x: torch.Tensor) -> torch.Tensor:
-        rows = x[:, 0].long().tolist()
-        kinds = x[:, 1].long().tolist()
+        flat = x.reshape(x.shape[0], -1)
+        rows = flat[:, 0].long().tolist()
+        kinds = flat[:, 1].long().tolist()
         return torch.stack([table[kd][r] for kd, r in zip(kinds, rows)]), tuple(kinds), tuple(rows)
 
     def _actor_fwd(self, x, q=True, log=False):
@@ -119,9 +181,12 @@ class Harness:
         return out.log() if log else out
 
     # ------------------------------------------------------------------ tables
+    def greedy_q(self, g: int) -> torch.Tensor:
+        return torch.tensor([1.0 if a == g else -float(1 + abs(a - g)) for a in range(self.A)])
+
     def set_tables(self, rng: random.Random, batches: Dict[str, dict], pden: int):
         """batches[name] = {rows: [(p numerators, rq, d)], greedy: [a], taken: [a]}.  Decoys are random."""
-        N, B = self.N, self.B
+        N, B, A = self.N, self.B, self.A
         self.qvals, self.tpmf, self.olog = {}, {}, {}
         for kind in range(4):
             qv = torch.zeros(B, A)
@@ -142,22 +207,47 @@ class Harness:
             ks, kn = KIND[name]
             for i, (p, rq, d) in enumerate(b["rows"]):
                 g = b["greedy"][i]
-                self.qvals[kn][i] = torch.tensor([1.0 if a == g else -float(1 + abs(a - g)) for a in range(A)])
+                self.qvals[kn][i] = self.greedy_q(g)
                 self.tpmf[kn][i, g] = torch.tensor(p, dtype=torch.float32) / pden
 
-    def experiences(self, name: str, b: dict, q: int, *, per: bool = False, idxs=None, weights=None):
+    def _obs(self, kind: int) -> torch.Tensor:
+        n = int(np.prod(self.obs_shape))
+        o = torch.zeros(self.B, n)
+        o[:, 0] = torch.arange(self.B, dtype=torch.float32)
+        o[:, 1] = float(kind)
+        if n > 2:
+            o[:, 2] = 7.0
+        return o.reshape((self.B,) + self.obs_shape)
+
+    def real_reward(self, rq: int, d: int, q: int, gamma_eff: float) -> float:
+        """The reward of the affine image: (r + shift (1 - (1-d) gamma)) * scale  (exact in float64 on dyadic supports)."""
+        return (rq / q + self.shift * (1.0 - (1 - d) * gamma_eff)) * self.scale
+
+    def experiences(self, name: str, b: dict, q: int, *, gamma_eff: float = 0.5, per: bool = False, idxs=None, weights=None,
+                    rdtype: str = "f32", ddtype: str = "f32", ashape: str = "f32col", container: str = "td"):
         B = self.B
         ks, kn = KIND[name]
-        obs = torch.tensor([[i, ks, 7, 0] for i in range(B)], dtype=torch.float32)
-        nobs = torch.tensor([[i, kn, 7, 0] for i in range(B)], dtype=torch.float32)
-        d = {"obs": obs, "action": torch.tensor([[float(a)] for a in b["taken"]], dtype=torch.float32),
-             "reward": torch.tensor([[r[1] / q * self.scale] for r in b["rows"]], dtype=torch.float32),
-             "next_obs": nobs, "done": torch.tensor([[float(r[2])] for r in b["rows"]], dtype=torch.float32)}
+        self.gamma_of[name] = gamma_eff
+        rew = [[self.real_reward(r[1], r[2], q, gamma_eff)] for r in b["rows"]]
+        if rdtype == "i64":
+            if not all(float(x[0]).is_integer() for x in rew):
+                raise RuntimeError("integer reward dtype asked for non-integer rewards")
+            reward = torch.tensor([[int(x[0])] for x in rew], dtype=torch.int64)
+        else:
+            reward = torch.tensor(rew, dtype=torch.float32)
+        done = torch.tensor([[r[2]] for r in b["rows"]], dtype={"f32": torch.float32, "i64": torch.int64, "u8": torch.uint8}[ddtype])
+        if ashape == "f32col":
+            action = torch.tensor([[float(a)] for a in b["taken"]], dtype=torch.float32)
+        elif ashape == "i64col":
+            action = torch.tensor([[a] for a in b["taken"]], dtype=torch.int64)
+        else:
+            action = torch.tensor(list(b["taken"]), dtype=torch.int64)
+        d = {"obs": self._obs(ks), "action": action, "reward": reward, "next_obs": self._obs(kn), "done": done}
         if idxs is not None:
             d["idxs"] = idxs
         if per:
             d["weights"] = weights
-        return self.TensorDict(d, batch_size=[B])
+        return d if container == "dict" else self.TensorDict(d, batch_size=[B])
 
     # ------------------------------------------------------------------ observation of one _dqn_loss call
     def classify(self, calls) -> str:
@@ -189,14 +279,21 @@ class Harness:
         ev = {"op": "loss", "set": name, "exc": "" if status == "ok" else str(out)[:200]}
         proj = rec["proj_dist"].detach().float().reshape(B, N)
         src = rec["target_q_dist"].detach().float().reshape(B, N)
-        rew = rec["rewards"].detach().float().reshape(B)
+        rew = rec["rewards"].detach().double().reshape(B)
         dn = rec["dones"].detach().float().reshape(B)
+        ref_name = name if name in batches else next(iter(batches))
+        ref = batches[ref_name]
+        g = self.gamma_of.get(ref_name, 0.0)
+        tol_m = q * pden * 1.25 * self.relerr              # 0 on dyadic supports: exact comparison
+        tol_r = q * self.relerr
+        if tol_m > 0.2:
+            raise RuntimeError(f"support too far from the origin for the rounding bound (tol {tol_m} grid units)")
         ev["gq"] = exact_int(rec["gamma"], q)
-        ev["m"] = [exact_int(v, q * pden) for v in proj.reshape(-1).tolist()]
+        ev["m"] = [grid_int(v, q * pden, tol_m) for v in proj.reshape(-1).tolist()]
         ev["src"] = [[exact_int(v, pden) for v in row] for row in src.tolist()]
-        ev["rew"] = [exact_int(v / self.scale, q) for v in rew.tolist()]
+        ev["rew"] = [grid_int(v / self.scale - self.shift * (1.0 - (1 - ref["rows"][i][2]) * g), q, tol_r, OFF_GRID)
+                     for i, v in enumerate(rew.tolist())]
         ev["dn"] = [exact_int(v, 1) for v in dn.tolist()]
-        ref = batches.get(name) or batches[next(iter(batches))]
         ev["rows"] = [{"p": list(r[0]), "rq": r[1], "d": r[2]} for r in ref["rows"]]
         ev["greedy_seen"] = [int(a) for a in rec["next_actions"].reshape(-1).tolist()]
         if status == "ok" and name in batches:
@@ -223,6 +320,13 @@ def rclass(case: dict, q: int) -> str:
     return ("reward-outside-support" if clipped else "reward-inside-support") + ("" if case["B"] == 1 else ":multi-row")
 
 
+def support_class(scale: float, shift: float) -> str:
+    """Suffix of violation signatures for cases run on an affine image of the specification's support."""
+    if not (is_dyadic(scale) and is_dyadic(shift)):
+        return ":nondyadic-support"
+    return ":shifted-support" if shift else ""
+
+
 class Replayer:
     """Replays dumped cases (inputs + the projection the spec demands) into the real _dqn_loss."""
 
@@ -232,38 +336,39 @@ class Replayer:
         self.rng = random.Random(seed)
         self.n = 0
 
-    def harness(self, N, vmin, B, scale) -> Harness:
-        key = (N, vmin, B, scale)
+    def harness(self, N, vmin, B, scale, shift, A) -> Harness:
+        key = (N, vmin, B, scale, shift, A)
         if key not in self.h:
-            h = Harness(N, vmin, B, scale=scale, seed=self.seed + len(self.h))
+            h = Harness(N, vmin, B, scale=scale, shift=shift, seed=self.seed + len(self.h), A=A,
+                        obs_shape=((4,) if len(self.h) % 3 else (2, 3)))
             base = {"one": {"rows": [([0] * (N - 1) + [self.pden], 0, 0)] * B, "greedy": [0] * B, "taken": [0] * B}}
             h.set_tables(self.rng, base, self.pden)
             self.h[key] = h
         return self.h[key]
 
-    def run(self, case: dict, scale: float = 1.0) -> Optional[dict]:
+    def run(self, case: dict, scale: float = 1.0, shift: float = 0.0, A: int = 3) -> Optional[dict]:
         """None if the real code agrees with the specification on this case, else a mismatch description."""
         q, pden = self.q, self.pden
         N, vmin, B, gq = case["N"], case["vmin"], case["B"], case["gq"]
-        h = self.harness(N, vmin, B, scale)
+        h = self.harness(N, vmin, B, scale, shift, A)
         self.n += 1
         rows = [(r["p"], r["rq"], r["d"]) for r in case["rows"]]
         batch = {"rows": rows, "greedy": [(self.n + i) % A for i in range(B)], "taken": [(self.n // 3 + 2 * i) % A for i in range(B)]}
         ks, kn = KIND["one"]
         for i, (p, rq, d) in enumerate(rows):
             g = batch["greedy"][i]
-            h.qvals[kn][i] = torch.tensor([1.0 if a == g else -float(1 + abs(a - g)) for a in range(A)])
+            h.qvals[kn][i] = h.greedy_q(g)
             for a in range(A):          # decoys for the other actions: same mass, all on one atom where p is smallest
                 dec = [0] * N
                 dec[min(range(N), key=lambda j: p[j])] = sum(p)
                 h.tpmf[kn][i, a] = torch.tensor(p if a == g else dec, dtype=torch.float32) / pden
-        exp = h.experiences("one", batch, q)
+        exp = h.experiences("one", batch, q, gamma_eff=gq / q)
         h.reset_obs()
-        info = {"case": case, "scale": scale, "greedy": batch["greedy"], "taken": batch["taken"]}
+        info = {"case": case, "scale": scale, "shift": shift, "A": A, "greedy": batch["greedy"], "taken": batch["taken"]}
         try:
             h.agent._dqn_loss(exp["obs"], exp["action"], exp["reward"], exp["next_obs"], exp["done"], gq / q)
         except Exception as e:
-            return dict(info, clause="Raises", detail=f"{type(e).__name__}: {e}"[:300])
+            return dict(info, clause=f"Raises-{type(e).__name__}", detail=f"{type(e).__name__}: {e}"[:300])
         recs = [f for (nm, f) in h.hooks.drain() if nm == "rainbow.proj"]
         if len(recs) != 1:
             raise RuntimeError(f"expected one rainbow.proj hook record, got {len(recs)} (is AGILERL_VERIF=1 set?)")
@@ -288,57 +393,93 @@ class Replayer:
                 if sum(a * b for a, b in zip(got, z)) != sum(a * b for a, b in zip(exp_m, z)):
                     return dict(info, clause="MeanConserved", detail=f"row {i}: observed {got} expected {exp_m}")
             return dict(info, clause="Projection", detail=f"observed {ev['m']} expected {want}")
-        # cross-entropy against the spec's m (exact on this grid, so proj == m/(q*pden) bit for bit)
-        mt = torch.tensor(want, dtype=torch.float32).reshape(B, N) / (q * pden)
-        val, tol = h.ce(mt, "one", batch["taken"])
-        got = h.losses[-1][1].double().reshape(-1).numpy()
-        if got.shape != val.shape or not np.all(np.abs(got - val) <= tol):
+        if h.exact:
+            # cross-entropy against the spec's m (exact on this grid, so proj == m/(q*pden) bit for bit)
+            mt = torch.tensor(want, dtype=torch.float32).reshape(B, N) / (q * pden)
+            val, tol = h.ce(mt, "one", batch["taken"])
+            got = h.losses[-1][1].double().reshape(-1).numpy()
+            ok = got.shape == val.shape and bool(np.all(np.abs(got - val) <= tol))
+        else:                            # non-dyadic support: proj is the spec's m only up to float32 rounding
+            val, got, ok = ev["ce"], ev["ce_seen"], ev["ce_ok"]
+            val, got = np.asarray(val), np.asarray(got)
+        if not ok:
             return dict(info, clause="CrossEntropy", detail=f"returned {got.tolist()} expected {val.tolist()}")
         return None
 
 
 # ---------------------------------------------------------------------- M3: real learn() -> trace
-def gen_rows(rng: random.Random, N: int, vmin: int, B: int, q: int, pden: int) -> List[tuple]:
+def gen_rows(rng: random.Random, N: int, vmin: int, B: int, q: int, pden: int, step: int = 1) -> List[tuple]:
+    """step = q: integer-valued rewards only (for the integer reward dtype)."""
     lo, hi = q * vmin, q * (vmin + N - 1)
     rows = []
-    for _ in range(B):
+    for i in range(B):
         w = [0] * N
         style = rng.randrange(4)
         for _ in range(pden + (rng.choice([-1, 0, 0, 1, 3]) if style == 3 else 0)):      # style 3: mass != 1
             j = rng.randrange(N) if style != 1 else rng.choice([0, N - 1, rng.randrange(N)])
             w[j] += 1
         x = rng.random()
+        d = int(rng.random() < 0.3)
         if x < 0.2:
-            rq = rng.choice([lo - q, lo - 1, hi + 1, hi + 3 * q])                # outside the support
-        elif x < 0.5:
+            rq = rng.choice([lo - q, lo - step, hi + step, hi + 3 * q])          # outside the support
+        elif x < 0.3:
+            rq, d = rng.choice([lo, hi]), 1                                       # terminal, exactly on v_min / v_max
+        elif x < 0.55:
             rq = q * rng.randint(vmin, vmin + N - 1)                              # exactly on an atom
         else:
-            rq = rng.randint(lo, hi)
-        rows.append((w, rq, int(rng.random() < 0.3)))
+            rq = (rng.randint(lo, hi) // step) * step
+        rows.append((w, rq, d))
     return rows
 
 
+LEARN_DEFAULTS = {"scale": 1.0, "shift": 0.0, "vrange": (), "learns": 2, "wshape": "col", "A": 3, "obs_shape": (4,),
+                  "prior_eps": 1e-6, "clone": 0, "bs_ctor": 0, "rdtype": "f32", "ddtype": "f32", "ashape": "f32col",
+                  "container": "td", "idxshape": "flat", "top": 0}
+
+
 def run_learn(*, N: int, vmin: int, B: int, gammaq: int, n: int, nstep: bool, combined: bool, per: bool,
-              q: int, pden: int, seed: int, scale: float = 1.0, learns: int = 2, wshape: str = "col") -> dict:
-    """Real learn() calls on one real agent; returns one trace for C51_Trace."""
+              q: int, pden: int, seed: int, **opt) -> dict:
+    """Real learn() calls on one real agent; returns one trace for C51_Trace.  Options: LEARN_DEFAULTS
+    (top = 1: the last row of every batch has a reward above the support)."""
+    o = dict(LEARN_DEFAULTS)
+    unknown = set(opt) - set(o)
+    if unknown:
+        raise TypeError(f"run_learn: unknown options {unknown}")
+    o.update(opt)
     rng = random.Random(seed)
-    h = Harness(N, vmin, B, scale=scale, gamma=gammaq / q, n_step=n, combined=combined, seed=seed)
+    vrange = tuple(o["vrange"]) if o["vrange"] else None
+    h = Harness(N, vmin, B, scale=o["scale"], shift=o["shift"], vrange=vrange, gamma=gammaq / q, n_step=n, combined=combined,
+                seed=seed, prior_eps=o["prior_eps"], A=o["A"], obs_shape=tuple(o["obs_shape"]), clone=bool(o["clone"]),
+                bs_ctor=(o["bs_ctor"] or None))
+    vmin = h.vmin
+    A = h.A
     cfg = {"N": N, "vmin": vmin, "B": B, "gammaq": gammaq, "n": n, "nstep": int(nstep), "combined": int(combined),
-           "per": int(per), "scale": scale, "seed": seed, "wshape": wshape, "learns": learns}
+           "per": int(per), "seed": seed, "exact": int(h.exact)}
+    cfg.update({k: (list(v) if isinstance(v, tuple) else v) for k, v in o.items()})
+    cfg["scale"], cfg["shift"] = h.scale, h.shift
+    g1, gn = gammaq / q, (gammaq / q) ** n
+    step = q if o["rdtype"] == "i64" else 1
     evs: List[dict] = []
-    for _ in range(learns):
+    for _ in range(o["learns"]):
         batches = {}
         for name in (["one", "n"] if nstep else ["one"]):
-            batches[name] = {"rows": gen_rows(rng, N, vmin, B, q, pden), "greedy": [rng.randrange(A) for _ in range(B)],
+            batches[name] = {"rows": gen_rows(rng, N, vmin, B, q, pden, step), "greedy": [rng.randrange(A) for _ in range(B)],
                              "taken": [rng.randrange(A) for _ in range(B)]}
+            if o["top"]:
+                w, _, d = batches[name]["rows"][-1]
+                batches[name]["rows"][-1] = (w, q * (vmin + N - 1) + 2 * q, d)
         if nstep:                                   # index-coupled sampling: both batches describe the same (obs, action)
             batches["n"]["taken"] = list(batches["one"]["taken"])
         h.set_tables(rng, batches, pden)
         idxs = torch.tensor([rng.randrange(1000) for _ in range(B)])
+        if o["idxshape"] == "col":
+            idxs = idxs.unsqueeze(1)                # what PrioritizedReplayBuffer.sample hands out
         w = torch.tensor([rng.choice([0.125, 0.25, 0.5, 1.0]) for _ in range(B)], dtype=torch.float32)
-        weights = w.unsqueeze(1) if wshape == "col" else w
-        e1 = h.experiences("one", batches["one"], q, per=per, idxs=(idxs if (per or nstep) else None), weights=weights)
-        en = h.experiences("n", batches["n"], q) if nstep else None
+        weights = w.unsqueeze(1) if o["wshape"] == "col" else w
+        kw = {k: o[k] for k in ("rdtype", "ddtype", "ashape", "container")}
+        e1 = h.experiences("one", batches["one"], q, gamma_eff=g1, per=per, idxs=(idxs if (per or nstep) else None),
+                           weights=weights, **kw)
+        en = h.experiences("n", batches["n"], q, gamma_eff=gn, **kw) if nstep else None
         h.reset_obs()
         exc = ""
         out = (None, None, None)
@@ -360,7 +501,7 @@ def run_learn(*, N: int, vmin: int, B: int, gammaq: int, n: int, nstep: bool, co
                     total += np.array(ev["ce"])
                     tol += h.ce(recs[k - 1]["proj_dist"].detach().float().reshape(B, N), ev["set"], batches[ev["set"]]["taken"])[1]
             else:
-                ev = {"op": "loss", "set": h.classify(lrec[2]), "exc": str(lrec[1])[:200], "gq": -1, "m": [], "src": [], "rew": [],
+                ev = {"op": "loss", "set": "", "exc": str(lrec[1])[:200], "gq": -1, "m": [], "src": [], "rew": [],
                       "dn": [], "rows": [], "ce_ok": False}
             evs.append(ev)
             if ev["exc"]:
@@ -368,13 +509,17 @@ def run_learn(*, N: int, vmin: int, B: int, gammaq: int, n: int, nstep: bool, co
         if evs and evs[-1]["exc"]:
             break
         loss, ridx, prio = out
-        lev = {"op": "learn", "exc": exc, "per": int(per), "loss": (float(loss) if loss is not None else None)}
+        lev = {"op": "learn", "exc": exc, "per": int(per)}
+        if loss is not None:                        # (a JSON null cannot be read by TLC's JsonDeserialize)
+            lev["loss"] = float(loss)
         if per and not exc:
+            eps = float(o["prior_eps"])                 # the configured value, not what the agent says it has
             pr = np.asarray(prio, dtype=np.float64).reshape(-1) if prio is not None else np.zeros(0)
-            lev["prio_ok"] = bool(pr.shape == total.shape and np.all(np.abs((pr - h.agent.prior_eps) - total) <= tol + 1e-6))
+            lev["prio_ok"] = bool(pr.shape == total.shape and
+                                  np.all(np.abs((pr - eps) - total) <= tol + 1e-6 + 4 * EPS32 * (np.abs(total) + eps)))
             lev["prio_seen"] = [float(x) for x in pr]
-            lev["prio_want"] = [float(x + h.agent.prior_eps) for x in total]
-            lev["idx_ok"] = bool(ridx is not None and torch.equal(torch.as_tensor(ridx).reshape(-1), idxs))
+            lev["prio_want"] = [float(x + eps) for x in total]
+            lev["idx_ok"] = bool(ridx is not None and torch.equal(torch.as_tensor(ridx).reshape(-1), idxs.reshape(-1)))
         else:
             lev["prio_ok"] = True            # nothing is returned as priority without PER
             lev["idx_ok"] = True
@@ -382,48 +527,194 @@ def run_learn(*, N: int, vmin: int, B: int, gammaq: int, n: int, nstep: bool, co
     return {"cfg": cfg, "ev": evs}
 
 
+def run_learn_cfg(c: dict, q: int, pden: int) -> dict:
+    """Re-run a recorded learn() trace from its cfg (./check C18 --replay)."""
+    opt = {k: c[k] for k in LEARN_DEFAULTS if k in c}
+    return run_learn(N=c["N"], vmin=c["vmin"], B=c["B"], gammaq=c["gammaq"], n=c["n"], nstep=bool(c["nstep"]),
+                     combined=bool(c["combined"]), per=bool(c["per"]), q=q, pden=pden, seed=c["seed"], **opt)
+
+
 # ---------------------------------------------------------------------- real networks, no stubs (float run)
-def run_real_networks(*, N: int, vmin: int, B: int, gamma: float, seed: int, q: int = 4) -> Optional[str]:
-    """The unstubbed networks (softmax clamped at 1e-3, so the source mass is not 1): the hook's source must be
-    the target network's output for the online network's greedy action, and mass / mean must be conserved
-    up to float32 rounding.  Returns None or a description of what failed."""
+OBS_KINDS = ("vec", "box2d", "discrete", "multidiscrete", "image", "dict")
+
+
+def _obs_space(kind: str, spaces):
+    if kind == "vec":
+        return spaces.Box(-1.0, 1.0, (4,), dtype=np.float32)
+    if kind == "box2d":
+        return spaces.Box(-1.0, 1.0, (2, 3), dtype=np.float32)
+    if kind == "discrete":
+        return spaces.Discrete(5)
+    if kind == "multidiscrete":
+        return spaces.MultiDiscrete([3, 4])
+    if kind == "image":
+        return spaces.Box(0, 255, (3, 16, 16), dtype=np.uint8)
+    if kind == "dict":
+        return spaces.Dict({"a": spaces.Box(-1.0, 1.0, (3,), dtype=np.float32), "b": spaces.Discrete(4)})
+    raise ValueError(kind)
+
+
+def _obs_batch(kind: str, B: int, TensorDict):
+    if kind == "vec":
+        return torch.rand(B, 4) * 2 - 1
+    if kind == "box2d":
+        return torch.rand(B, 2, 3) * 2 - 1
+    if kind == "discrete":
+        return torch.randint(0, 5, (B, 1)).float()
+    if kind == "multidiscrete":
+        return torch.stack([torch.randint(0, 3, (B,)), torch.randint(0, 4, (B,))], 1).float()
+    if kind == "image":
+        return torch.randint(0, 256, (B, 3, 16, 16)).float()
+    return TensorDict({"a": torch.rand(B, 3) * 2 - 1, "b": torch.randint(0, 4, (B, 1)).float()}, batch_size=[B])
+
+
+def ref_projection(src: torch.Tensor, tz: torch.Tensor, v_min: float, delta: float, N: int) -> torch.Tensor:
+    """The redistribution of the property in float64: every source atom's mass goes to the two atoms enclosing its
+    target position, in proportion to proximity (defined independently of the code's floor / ceil / fix-up)."""
+    b = ((tz - v_min) / delta).clamp(0, N - 1)
+    lo = b.floor().clamp(max=N - 2) if N > 1 else b.floor()
+    frac = b - lo
+    out = torch.zeros_like(src)
+    out.scatter_add_(1, lo.long(), src * (1 - frac))
+    out.scatter_add_(1, (lo.long() + 1).clamp(max=N - 1), src * frac)
+    return out
+
+
+REAL_DEFAULTS = {"obs": "vec", "A": 3, "n": 1, "nstep": 0, "combined": 0, "per": 1, "tau": 1e-3, "noise_std": 0.5,
+                 "prior_eps": 1e-6, "clone": 0, "learns": 2, "perturb": 0.5}
+
+
+def run_real_learn(*, N: int, v_min, v_max, B: int, gamma: float, seed: int, **opt) -> Optional[str]:
+    """learn() on an agent whose networks are NOT stubbed (clamped softmax: source mass != 1; noisy layers; real encoders for
+    several observation spaces), several times in a row (optimiser step, soft update with tau, noise reset in between).
+    Before every learn() the harness evaluates the public forwards of the same networks; every hook record must have
+    source = actor_target(next_obs, q=False)[online-greedy action], projection = the float64 reference redistribution
+    (mass, mean and element-wise, up to float32 rounding), and the returned priorities / element-wise losses must be the
+    cross-entropies.  Returns None or 'Clause: detail'."""
+    o = dict(REAL_DEFAULTS)
+    unknown = set(opt) - set(o)
+    if unknown:
+        raise TypeError(f"run_real_learn: unknown options {unknown}")
+    o.update(opt)
     spaces, TensorDict, RainbowDQN, hooks = _imports()
     torch.manual_seed(seed)
     rng = random.Random(seed)
-    ag = RainbowDQN(spaces.Box(-1.0, 1.0, (4,), dtype=np.float32), spaces.Discrete(A), batch_size=B, num_atoms=N,
-                    v_min=vmin, v_max=vmin + N - 1, gamma=gamma,
-                    net_config={"latent_dim": 8, "encoder_config": {"hidden_size": [16]}, "head_config": {"hidden_size": [64]}})
-    for p_ in list(ag.actor.parameters()) + list(ag.actor_target.parameters()):
-        with torch.no_grad():
-            p_.add_(torch.randn_like(p_) * 0.5)                    # target and online weights differ
-    obs, nobs = torch.rand(B, 4) * 2 - 1, torch.rand(B, 4) * 2 - 1
-    rew = torch.tensor([[rng.randint(q * (vmin - 1), q * (vmin + N)) / q] for _ in range(B)], dtype=torch.float32)
-    done = torch.tensor([[float(rng.random() < 0.3)] for _ in range(B)])
-    act = torch.tensor([[float(rng.randrange(A))] for _ in range(B)])
-    hooks.drain()
-    with torch.no_grad():
-        greedy = ag.actor(nobs).argmax(1)
-        src = ag.actor_target(nobs, q=False)[range(B), greedy]
-        logq = ag.actor(obs, q=False, log=True)[range(B), act.squeeze(1).long()]
-    try:
-        out = ag._dqn_loss(obs, act, rew, nobs, done, gamma)
-    except Exception as e:
-        return f"Raises: {type(e).__name__}: {e}"[:300]
-    rec = [f for (nm, f) in hooks.drain() if nm == "rainbow.proj"][-1]
-    if not torch.equal(rec["target_q_dist"], src):
-        return "Source: target_q_dist is not actor_target(next_obs, q=False)[greedy action of actor(next_obs)]"
-    proj = rec["proj_dist"].double()
+    A, n, nstep, combined, per = o["A"], o["n"], bool(o["nstep"]), bool(o["combined"]), bool(o["per"])
+    ag = RainbowDQN(_obs_space(o["obs"], spaces), spaces.Discrete(A), batch_size=B, num_atoms=N, v_min=v_min, v_max=v_max,
+                    gamma=gamma, n_step=n, combined_reward=combined, tau=o["tau"], noise_std=o["noise_std"],
+                    prior_eps=o["prior_eps"], lr=1e-2,
+                    net_config={"latent_dim": 8, "head_config": {"hidden_size": [32]}})
+    if o["perturb"]:
+        for p_ in list(ag.actor.parameters()) + list(ag.actor_target.parameters()):
+            with torch.no_grad():
+                p_.add_(torch.randn_like(p_) * o["perturb"])            # target and online weights differ, peaked pmfs
+    if o["clone"]:
+        ag = ag.clone()
+    delta = (v_max - v_min) / (N - 1)
     z = ag.support.double()
-    tz = (rew.double() + (1 - done.double()) * gamma * z).clamp(vmin, vmin + N - 1)
-    mass_err = (proj.sum(1) - src.double().sum(1)).abs().max().item()
-    mean_err = ((proj * z).sum(1) - (src.double() * tz).sum(1)).abs().max().item()
-    if mass_err > 1e-5:
-        return f"MassConserved: |mass(proj) - mass(source)| = {mass_err:.3g}"
-    if mean_err > 1e-5 * max(1.0, float(z.abs().max())):
-        return f"MeanConserved: |mean(proj) - mean(clamped target atoms)| = {mean_err:.3g}"
-    terms = proj * logq.double()
-    ce = -terms.sum(1)
-    tol = 1e-6 + 4.0 * (N + 2) * EPS32 * terms.abs().sum(1)
-    if ((ce - out.detach().double()).abs() > tol).any().item():
-        return "CrossEntropy: returned loss is not -sum proj * log q(action taken)"
+    mag = max(abs(v_min), abs(v_max)) / delta + N
+    tol_p = 1e-5 + 1e-6 * mag                                             # float32 rounding of b times the source mass
+    seen: List[tuple] = []
+    real_loss = ag._dqn_loss
+
+    def observed(*a, **k):
+        out = real_loss(*a, **k)
+        seen.append(out.detach().clone())
+        return out
+
+    ag._dqn_loss = observed
+
+    def batch():
+        lo, hi = float(v_min) - delta, float(v_max) + delta
+        rew, done = [], []
+        for _ in range(B):
+            x = rng.random()
+            d = float(rng.random() < 0.3)
+            if x < 0.25:
+                r = float(ag.support[rng.randrange(N)])                  # exactly on an atom
+            elif x < 0.35:
+                r, d = float(rng.choice([v_min, v_max])), 1.0             # terminal on an end of the support
+            elif x < 0.5:
+                r = rng.choice([lo, hi, float(v_max) + 3 * delta])        # outside
+            else:
+                r = rng.uniform(lo, hi)
+            rew.append([r])
+            done.append([d])
+        return {"obs": _obs_batch(o["obs"], B, TensorDict), "next_obs": _obs_batch(o["obs"], B, TensorDict),
+                "reward": torch.tensor(rew, dtype=torch.float32), "done": torch.tensor(done, dtype=torch.float32)}
+
+    for li in range(o["learns"]):
+        act = torch.tensor([[float(rng.randrange(A))] for _ in range(B)])
+        names = (["one"] if (combined or not nstep) else []) + (["n"] if nstep else [])
+        data = {"one": batch()}
+        if nstep:
+            data["n"] = batch()
+        for d_ in data.values():
+            d_["action"] = act
+        idxs = torch.arange(B).unsqueeze(1)
+        data["one"]["idxs"] = idxs
+        if per:
+            data["one"]["weights"] = torch.tensor([[rng.choice([0.1, 0.3, 0.7, 1.0])] for _ in range(B)])
+        want = {}
+        with torch.no_grad():
+            for nm in names:
+                d_ = data[nm]
+                nx, ob = ag.preprocess_observation(d_["next_obs"]), ag.preprocess_observation(d_["obs"])
+                greedy = ag.actor(nx).argmax(1)
+                src = ag.actor_target(nx, q=False)[range(B), greedy]
+                logq = ag.actor(ob, q=False, log=True)[range(B), act.squeeze(1).long()]
+                want[nm] = (src, logq)
+        hooks.drain()
+        del seen[:]
+        where = f"learn #{li + 1}"
+        try:
+            loss, ridx, prio = ag.learn(TensorDict(data["one"], batch_size=[B]),
+                                        n_experiences=(TensorDict(data["n"], batch_size=[B]) if nstep else None), per=per)
+        except Exception as e:
+            return f"Raises-{type(e).__name__}: {where}: {e}"[:300]
+        recs = [f for (nm, f) in hooks.drain() if nm == "rainbow.proj"]
+        if len(recs) != len(names) or len(seen) != len(names):
+            return f"Terms: {where}: {len(recs)} loss terms computed, {len(names)} configured ({names})"
+        total = torch.zeros(B, dtype=torch.float64)
+        ttol = torch.zeros(B, dtype=torch.float64)
+        for nm, rec, out in zip(names, recs, seen):
+            d_ = data[nm]
+            src, logq = want[nm]
+            g = gamma ** n if nm == "n" else gamma
+            if not torch.equal(rec["rewards"].float().reshape(-1), d_["reward"].reshape(-1)):
+                return f"OneBatch: {where}: the {nm} term was not computed from the {nm} batch's rewards"
+            if abs(float(rec["gamma"]) - g) > 1e-12:
+                return f"Gamma: {where}: the {nm} term discounts with {float(rec['gamma'])!r}, expected {g!r}"
+            if rec["target_q_dist"].shape != src.shape or not torch.equal(rec["target_q_dist"], src):
+                return f"Source: {where}: target_q_dist is not actor_target(next_obs, q=False)[greedy action of actor(next_obs)]"
+            proj = rec["proj_dist"].double()
+            tz = (d_["reward"].double() + (1 - d_["done"].double()) * g * z).clamp(float(v_min), float(v_max))
+            mass = src.double().sum(1)
+            mass_err = (proj.sum(1) - mass).abs().max().item()
+            mean_err = ((proj * z).sum(1) - (src.double() * tz).sum(1)).abs().max().item()
+            if not (mass_err <= 1e-5):
+                return f"MassConserved: {where}: |mass(proj) - mass(source)| = {mass_err:.3g}"
+            if not (mean_err <= (1e-5 + tol_p) * max(1.0, float(z.abs().max()), delta * N)):
+                return f"MeanConserved: {where}: |mean(proj) - mean(clamped target atoms)| = {mean_err:.3g}"
+            ref = ref_projection(src.double(), tz, float(v_min), delta, N)
+            perr = (proj - ref).abs().max().item()
+            if not (perr <= tol_p * max(1.0, mass.max().item())):
+                return f"Projection: {where}: max |proj - reference redistribution| = {perr:.3g}"
+            terms = proj * logq.double()
+            ce = -terms.sum(1)
+            tol = 1e-6 + 4.0 * (N + 2) * EPS32 * terms.abs().sum(1)
+            if out.shape != ce.shape or ((ce - out.double()).abs() > tol).any().item():
+                return f"CrossEntropy: {where}: returned element-wise loss is not -sum proj * log q(action taken)"
+            total += ce
+            ttol += tol
+        if per:
+            eps = float(o["prior_eps"])
+            pr = torch.as_tensor(np.asarray(prio, dtype=np.float64)).reshape(-1)
+            if pr.shape != total.shape or (((pr - eps) - total).abs() > ttol + 1e-6 + 4 * EPS32 * (total.abs() + eps)).any().item():
+                return f"Priority: {where}: new priorities are not the summed cross-entropies + prior_eps"
     return None
+
+
+def run_real_networks(*, N: int, vmin: int, B: int, gamma: float, seed: int, q: int = 4) -> Optional[str]:
+    """Kept for replaying evidence recorded before run_real_learn existed."""
+    return run_real_learn(N=N, v_min=vmin, v_max=vmin + N - 1, B=B, gamma=gamma, seed=seed)
